@@ -47,6 +47,7 @@ def parseSink (s : List Char) : Option Sink :=
     match dotted r with | some [w, j] => some (.insertTo w j) | _ => none
   else if let some r := stripPrefix "lazy" s then
     match dotted r with | some [w, k] => some (.lazyTo w k) | _ => none
+  else if s = "info".toList then some .info
   else if let some r := stripPrefix "swap" s then (natOf r).map .swapVal
   else none
 
@@ -125,6 +126,18 @@ def parseOp (toks : List String) : Option Op :=
   | ["reserveexact", v, n] => do pure (.reserveExact (← v.toNat?) (← n.toNat?))
   | ["shrinktofit", v] => do pure (.shrinkToFit (← v.toNat?))
   | ["shrinkto", v, n] => do pure (.shrinkTo (← v.toNat?) (← n.toNat?))
+  | ["info", v] => do pure (.info (← v.toNat?))
+  | ["dcvec", v, ty] => do pure (.dcvec (← v.toNat?) (← ty.toNat?))
+  | ["wswap", v, i, ty] => do pure (.wswap (← v.toNat?) (← i.toNat?) (← ty.toNat?))
+  | ["tassign", v, i] => do pure (.tassign (← v.toNat?) (← i.toNat?))
+  | ["swapb", v, i, j] => do pure (.swapb (← v.toNat?) (← i.toNat?) (← j.toNat?))
+  | ["tswap", v, i, j] => do pure (.tswap (← v.toNat?) (← i.toNat?) (← j.toNat?))
+  | ["eswap", v, i, w, j] => do pure (.eswap (← v.toNat?) (← i.toNat?) (← w.toNat?) (← j.toNat?))
+  | ["probe", v] => do pure (.probe (← v.toNat?))
+  | ["views", v] => do pure (.views (← v.toNat?))
+  | ["setlen", v, k, p] => do pure (.setLenSpare (← v.toNat?) (← k.toNat?) (← parsePath p))
+  | ["rawrt", v] => do pure (.rawrt (← v.toNat?))
+  | ["rawparts", v] => do pure (.rawparts (← v.toNat?))
   | ["release"] => some .release
   | ["dropvec", v] => do pure (.dropVec (← v.toNat?))
   | _ => none
@@ -152,7 +165,7 @@ def showVec (cfg : Cfg) (k : Nat) (v : VecSt) : String :=
   let cells := (v.cells.ensure v.len).take v.len
   let body :=
     if cfg.size = 0 then "z"
-    else if v.len > 64 then "#" ++ toString (hashIds (cells.map (cellNum cfg)))
+    else if v.len > 300 then "#" ++ toString (hashIds (cells.map (cellNum cfg)))
     else joinOr "," (cells.map (showCell cfg))
   s!"V{k} {v.len} {v.cap} {body}"
 
